@@ -1,9 +1,173 @@
 import UF.Driver.Decode
-/- Ops of work group D (see notes/AGENT_GUIDE.md). Return `none` for ops of other groups. -/
+import UF.Spec.Storage
+import UF.Spec.Html
+/- Ops of work group D (C11: `c11.*`, C20: `c20.*`). Return `none` for ops of other groups. -/
 namespace UF.Ops
+open UF.Storage UF.Html
+
+/-! ### C11 -/
+
+def kindLetter : Kind → String
+  | .network => "N" | .host => "H" | .cosmetic => "C"
+
+/-- Oracle table of `rules.NewRule`: trimmed line ↦ kind / none / err. -/
+abbrev ParseTable := List (Bytes × String)
+
+def decParseTable (w : W) : Option ParseTable := do
+  let xs ← w.list?
+  xs.mapM fun e => match e with
+    | .l [l, .a k] => do pure ((← l.bytes?), k)
+    | _ => none
+
+/-- The parser handed to the model: trims (with the MODEL's trimSpace), then asks the table.
+    A line missing from the table shows up as a rule with the text `MISSING-ORACLE`. -/
+def tableParser (t : ParseTable) : Parser := fun l _ =>
+  let s := trimSpace l
+  if s.isEmpty then .nothing else
+  match t.lookup s with
+  | some "N" => .rule .network s
+  | some "H" => .rule .host s
+  | some "C" => .rule .cosmetic s
+  | some "none" => .nothing
+  | some "err" => .error
+  | _ => .rule .network (lit "MISSING-ORACLE")
+
+def decRList (file : Bool) (w : W) : Option RList :=
+  match w with
+  | .l [i, g, c] => do pure { id := (← i.int?), ignoreCosmetic := (← g.bool?), content := (← c.bytes?), file }
+  | _ => none
+
+def decRLists (file : Bool) (w : W) : Option (List RList) := do
+  let xs ← w.list?
+  xs.mapM (decRList file)
+
+def inInt32 (i : Int) : Bool := -2147483648 ≤ i && i < 2147483648
+
+/-- Answer lists are joined without blanks (an answer is one token). -/
+def outAnswers (xs : List String) : String := "(" ++ ",".intercalate xs ++ ")"
+
+def outSRule (r : SRule) : String := s!"{kindLetter r.kind}:{outBytes r.text}:{r.listID}"
+
+def outRetrieved : Retrieved → String
+  | .panic => "PANIC" | .err => "err" | .nothing => "none" | .bad => "bad" | .nilRule => "nilrule"
+  | .rule r => outSRule r
+
+/-- The chunking used by the driver for the file-backed model (any would do: `retrieveFile_eq_string`). -/
+def driverIO : Storage.IO := { bufSize := Facts.readerBufferSize, chunk := fun k => (k * 1237 + 1) % 5000 }
+
+/-- `c11.trim <bytes>`: model `trimSpace`, spec `trimSpaceRef`. -/
+def opTrim (args : List W) : String :=
+  match args with
+  | [b] => match b.bytes? with
+    | some b => outBytes (trimSpace b) ++ " " ++ outBytes (trimSpaceRef b)
+    | none => "bad-decode"
+  | _ => "bad-arity"
+
+/-- `c11.pack <id> <idx>`: `<storage index>:<id'>:<idx'>` through pack/unpack on bit vectors;
+    spec by integer arithmetic. -/
+def opPack (args : List W) : String :=
+  match args with
+  | [i, x] => match i.int?, x.int? with
+    | some id, some idx =>
+      if !(inInt32 id && inInt32 idx) then "ood -" else
+      let p := pack (BitVec.ofInt 32 id) (BitVec.ofInt 32 idx)
+      let (a, b) := unpack p
+      let specP : Int := id * 4294967296 + idx.emod 4294967296
+      s!"{p.toInt}:{a.toInt}:{b.toInt} {specP}:{id}:{idx}"
+    | _, _ => "bad-decode"
+  | _ => "bad-arity"
+
+/-- `c11.scan ((id ign content)…) <oracle>`: the storage scan `((storageIdx kind:text:id)…)` or `err`
+    for duplicate ids; spec = the reference line-by-line parse with the index computed arithmetically. -/
+def opScan (args : List W) : String :=
+  match args with
+  | [ls, t] => match decRLists false ls, decParseTable t with
+    | some lists, some t =>
+      if !(lists.all fun l => inInt32 l.id && l.content.length < 2147483648) then "ood -" else
+      let parse := tableParser t
+      match newRuleStorage lists with
+      | none => "err err"
+      | some st =>
+        let m := (storageScan parse st.lists).map fun (r, idx) => s!"{idx.toInt}/{outSRule r}"
+        let s := (specStorageScan parse lists).map fun (r, id, off) =>
+          s!"{id * 4294967296 + (off : Int)}/{outSRule r}"
+        outAnswers m ++ " " ++ outAnswers s
+    | _, _ => "bad-decode"
+  | _ => "bad-arity"
+
+/-- `c11.retrieve ((id ign content)…) <oracle> (idx…)`: consecutive `RetrieveRule` calls on one
+    storage (the cache is threaded), String-backed and File-backed models side by side.
+    Spec: a scanned index answers with the scanned rule; other indices are not constrained
+    (the model's answer is repeated). -/
+def opRetrieve (args : List W) : String :=
+  match args with
+  | [ls, t, is] => match decRLists false ls, decRLists true ls, decParseTable t, is.list? >>= (·.mapM W.int?) with
+    | some lists, some flists, some t, some idxs =>
+      if !(lists.all fun l => inInt32 l.id && l.content.length < 2147483648) then "ood -" else
+      if !(idxs.all fun i => -9223372036854775808 ≤ i && i < 9223372036854775808) then "ood -" else
+      let parse := tableParser t
+      match newRuleStorage lists, newRuleStorage flists with
+      | some st, some fst =>
+        let run (st : RuleStorage) : List Retrieved :=
+          (idxs.foldl (init := (st, ([] : List Retrieved))) fun (st, acc) i =>
+            let (r, st') := retrieveRule driverIO parse st (BitVec.ofInt 64 i)
+            (st', r :: acc)).2.reverse
+        let a := run st
+        let b := run fst
+        if a != b then "model-backing-mismatch -" else
+        let scanned := specStorageScan parse lists
+        let spec := (idxs.zip a).map fun (i, r) =>
+          match scanned.find? (fun (_, id, off) => id * 4294967296 + (off : Int) == i) with
+          | some (sr, _, _) => outSRule sr
+          | none => outRetrieved r
+        outAnswers (a.map outRetrieved) ++ " " ++ outAnswers spec
+      | _, _ => "err err"
+    | _, _, _, _ => "bad-decode"
+  | _ => "bad-arity"
+
+/-! ### C20 -/
+
+def outResponse : Option Response → String
+  | none => "err"
+  | some r => s!"{outBytes r.body}|{r.contentLength}|{outBool r.contentEncoding}|{outBool r.cspKept}"
+
+/-- `c20.html <body> <gzip T/F> <tag>`: the body is the DECOMPRESSED body (gzip is an oracle:
+    decompress ∘ compress = id). -/
+def opHtml (args : List W) : String :=
+  match args with
+  | [b, _gz, t] => match b.bytes?, t.bytes? with
+    | some b, some tag =>
+      if !Bytes.isAscii tag then "ood -" else
+      let w := Facts.headBufferSize
+      let m := filterHTML w b tag
+      let out := specFilter w b tag
+      let injected := (specFind w b).isSome
+      let s : Response := ⟨out, out.length, false, !injected⟩
+      outResponse m ++ " " ++ outResponse (some s)
+    | _, _ => "bad-decode"
+  | _ => "bad-arity"
+
+/-- `c20.index <body>`: `findBodyInjectionIndex` on the Latin-1-decoded text (byte index into the
+    UTF-8 text, or -1); spec: the reference position mapped into the UTF-8 text. -/
+def opHtmlIndex (args : List W) : String :=
+  match args with
+  | [b] => match b.bytes? with
+    | some b =>
+      let w := Facts.headBufferSize
+      let show_ (o : Option Nat) : String := match o with | some i => toString i | none => "-1"
+      show_ (findBodyInjectionIndex w (latin1Decode b)) ++ " " ++
+        show_ ((specFind w b).map fun i => (latin1Decode (b.take i)).length)
+    | none => "bad-decode"
+  | _ => "bad-arity"
 
 def dispatchD (op : String) (args : List W) : Option String :=
-  match op, args with
-  | _, _ => none
+  match op with
+  | "c11.trim" => some (opTrim args)
+  | "c11.pack" => some (opPack args)
+  | "c11.scan" => some (opScan args)
+  | "c11.retrieve" => some (opRetrieve args)
+  | "c20.html" => some (opHtml args)
+  | "c20.index" => some (opHtmlIndex args)
+  | _ => none
 
 end UF.Ops
